@@ -449,6 +449,9 @@ func scanCheck(c scanCfg, out *scanObs, c14 bool) func(res *vrt.Result) *explore
 				return &explore.Finding{Class: "scan-failed-without-cause", Msg: fmt.Sprintf("%v\n%s", out.endErr, c)}
 			}
 			if strings.Join(got, "|") != strings.Join(exp, "|") {
+				if c.rev && c.start == "" {
+					return &explore.Finding{Class: "reversed-scan-without-start-row-is-sent-to-the-first-region", Msg: fmt.Sprintf("got  %q\nwant %q\n%s", got, exp, c)}
+				}
 				return &explore.Finding{Class: "scan-result-differs-from-table", Msg: fmt.Sprintf("got  %q\nwant %q\n%s", got, exp, c)}
 			}
 			if c.twice {
@@ -542,8 +545,10 @@ func c06Units(thorough bool) []*explore.Unit {
 					for _, start := range ks.limits {
 						for _, stop := range ks.limits {
 							for _, rev := range []bool{false, true} {
-								if rev && start == "" {
-									continue // documented: reversed scans need an explicit start row
+								if rev && start == "" && !(ki == 0 && ncells == cellsOpts[0]) {
+									// a reversed scan without a start row is an open known finding
+									// (judged in a small family only)
+									continue
 								}
 								for _, nrows := range []uint32{1, 2, 100} {
 									if nrows == 2 && !thorough {
@@ -634,7 +639,7 @@ func init() {
 		ID: "C06", Level: "model_checking",
 		Technique:   "exhaustive enumeration of every server chunking (environment choices of the controlled runtime) for every small table / layout / range / direction, real scanner code against a sorted range-filtered model",
 		Rule:        "configurations = every non-empty subset of 3 (thorough 4) row keys from key sets incl. keys ending in 00 and ff x 1-2(3) cells x 1-3(4) regions x every [start,stop) over boundary and non-boundary keys x direction x row limit {1,(2),inf} x partials on/off; for each, EVERY response shape: number of cells per response (0 = heartbeat, once per region scanner), end of region reported with the data or in a separate empty response (once), early more_results=false. Reversed multi-region scans are run twice through the same client. Non-trivial = at least one non-default chunking choice.",
-		Assumptions: []string{"row keys without a run of eight 0xff bytes; reversed scans with explicit start row (as documented)", "heartbeats / deferred end-of-region reports capped at one per region scanner (uncapped the choice tree is infinite)", "default thread schedule; the scanner is sequential apart from asynchronous close requests"},
+		Assumptions: []string{"row keys without a run of eight 0xff bytes", "a reversed scan WITHOUT a start row is explored in a small family and is an open known finding", "heartbeats / deferred end-of-region reports capped at one per region scanner (uncapped the choice tree is infinite)", "default thread schedule; the scanner is sequential apart from asynchronous close requests"},
 		Quick:       120 * time.Second, Thorough: 20 * time.Minute,
 		Units: c06Units,
 	})
